@@ -66,6 +66,10 @@ func otherKinds(startID int) []*Obj {
 				add(&Obj{Kind: KEvent, NS: ns, NM: ik*2 + inm, Spec: SEvent, IKind: ik, INS: ns, INM: inm})
 			}
 		}
+		// events about an object without kind / a cluster-scoped object
+		add(&Obj{Kind: KEvent, NS: ns, NM: 7, Spec: SEvent, IKind: 0, INS: ns, INM: 1})
+		add(&Obj{Kind: KEvent, NS: ns, NM: 8, Spec: SEvent, IKind: 1, INS: 0, INM: 1})
+		add(&Obj{Kind: KEvent, NS: ns, NM: 9, Spec: SEvent, IKind: 0, INS: 0, INM: 2})
 		add(&Obj{Kind: KNode, NS: 0, NM: ns, Labels: Map{{1, 1}}, Spec: SNone})
 		add(&Obj{Kind: KSecret, NS: ns, NM: 1, Spec: SNone})
 	}
@@ -107,6 +111,13 @@ func atoms(small bool) []*Filt {
 		&Filt{Tag: FLabelSelector, LSel: &LSel{Exprs: []Expr{{Key: 2, Op: 3}}}},
 		&Filt{Tag: FLabelSelector, LSel: &LSel{Labels: Map{{2, 2}}, Exprs: []Expr{{Key: 1, Op: 2}, {Key: 2, Op: 1, Vals: []int{3}}}}},
 		&Filt{Tag: FLabelSelector, LSel: &LSel{Labels: Map{{1, 1}}, Exprs: []Expr{{Key: 1, Op: 0, Vals: []int{1, 3}}}}},
+		// several requirements on one key: all of them count
+		&Filt{Tag: FLabelSelector, LSel: &LSel{Exprs: []Expr{{Key: 1, Op: 2}, {Key: 1, Op: 1, Vals: []int{1}}}}},
+		&Filt{Tag: FLabelSelector, LSel: &LSel{Exprs: []Expr{{Key: 1, Op: 1, Vals: []int{1}}, {Key: 1, Op: 2}}}},
+		&Filt{Tag: FLabelSelector, LSel: &LSel{Exprs: []Expr{{Key: 1, Op: 0, Vals: []int{1, 2}}, {Key: 1, Op: 1, Vals: []int{2}}}}},
+		&Filt{Tag: FLabelSelector, LSel: &LSel{Exprs: []Expr{{Key: 1, Op: 1, Vals: []int{2}}, {Key: 1, Op: 0, Vals: []int{1, 2}}}}},
+		&Filt{Tag: FLabelSelector, LSel: &LSel{Labels: Map{{1, 1}}, Exprs: []Expr{{Key: 1, Op: 0, Vals: []int{2}}}}},
+		&Filt{Tag: FLabelSelector, LSel: &LSel{Labels: Map{{2, 2}}, Exprs: []Expr{{Key: 2, Op: 1, Vals: []int{3}}, {Key: 2, Op: 2}, {Key: 1, Op: 3}}}},
 	)
 	return r
 }
@@ -186,6 +197,9 @@ func typedAtoms() []*Filt {
 		{Tag: FInvolved, K: 1, NS: 1, NM: 2},
 		{Tag: FInvolved, K: 2, NS: 1, NM: 1},
 		{Tag: FInvolved, K: 1, NS: 2, NM: 1},
+		{Tag: FInvolved, K: 0, NS: 1, NM: 1}, // an object that carries no kind: matches events about an object without kind only
+		{Tag: FInvolved, K: 1, NS: 0, NM: 1}, // a cluster-scoped object
+		{Tag: FInvolved, K: 0, NS: 0, NM: 2},
 		{Tag: FSelectorMatch, Map: nil},
 		{Tag: FSelectorMatch, Map: Map{{1, 1}}},
 		{Tag: FSelectorMatch, Map: Map{{1, 1}, {2, 2}}},
@@ -376,7 +390,28 @@ func runC17(c *Ctx) {
 		gos[i] = o.Go()
 	}
 	all := append(atoms(false), typedAtoms()...)
+	// a family of filters that are easy to confuse, all within the first
+	// diagonal block (every pair is compared): id lists that repeat an id,
+	// share an id, or differ in one id only; ingresses with several paths to
+	// one service
+	ingf := func(id, be int, paths ...int) *Filt {
+		return &Filt{Tag: FIngressServices, Objs: []*Obj{{ID: id, Kind: KIngress, NS: 1, NM: 1, RV: "1", Spec: SIngress, Backend: be, Paths: paths}}}
+	}
+	confusable := []*Filt{
+		{Tag: FNSName, IDs: []ID2{{1, 1}, {1, 1}, {2, 2}}},
+		{Tag: FNSName, IDs: []ID2{{3, 3}, {3, 3}, {2, 2}}},
+		{Tag: FNSName, IDs: []ID2{{1, 1}, {2, 2}}},
+		{Tag: FNSName, IDs: []ID2{{2, 2}, {1, 1}, {1, 1}}},
+		{Tag: FNSName, IDs: []ID2{{1, 1}, {3, 3}, {2, 2}}},
+		{Tag: FNSName, IDs: []ID2{{2, 2}}},
+		{Tag: FNSName, IDs: []ID2{{1, 0}, {1, 0}, {0, 2}}},
+		{Tag: FNSName, IDs: []ID2{{2, 0}, {2, 0}, {0, 2}}},
+		{Tag: FNSName, IDs: []ID2{{1, 0}, {0, 2}}},
+		{Tag: FNSName, IDs: []ID2{{0, 2}}},
+		ingf(940, 0, 1, 1, 2), ingf(941, 0, 3, 3, 2), ingf(942, 0, 1, 2), ingf(943, 2, 1, 1), ingf(944, 2),
+	}
 	var terms []*Filt
+	terms = append(terms, confusable...)
 	for _, a := range all {
 		terms = append(terms, a)
 	}
@@ -599,6 +634,8 @@ func runC19(c *Ctx) {
 		{Exprs: []Expr{{Key: 1, Op: 0, Vals: []int{1, 2}}}},
 		{Exprs: []Expr{{Key: 2, Op: 1, Vals: []int{3}}}},
 		{Exprs: []Expr{{Key: 2, Op: 2}}},
+		{Exprs: []Expr{{Key: 1, Op: 0, Vals: []int{1, 2}}, {Key: 1, Op: 1, Vals: []int{2}}}}, // two requirements on one key
+		{Labels: Map{{1, 1}}, Exprs: []Expr{{Key: 1, Op: 2}, {Key: 1, Op: 1, Vals: []int{1}}}},
 	}
 	maps := []Map{nil, {{1, 1}}, {{1, 1}, {2, 2}}, {{2, 3}}}
 	type family struct {
